@@ -19,9 +19,10 @@ structure NackBuf where
   order : List UInt16                 -- FIFO, oldest first
   packets : List (UInt16 × Nat)       -- the HashMap seq → packet(tag)
   recent : List (UInt16 × Nat)        -- `recent_resends`: seq → time of last accepted resend (ms)
+  rtxSsrc : UInt32 := 0               -- `rtx_ssrc_fast`: 0 = RTX disabled
   deriving Repr
 
-def NackBuf.new (maxSize : Nat) : NackBuf := ⟨max maxSize 1, [], [], []⟩
+def NackBuf.new (maxSize : Nat) : NackBuf := ⟨max maxSize 1, [], [], [], 0⟩
 
 def mapGet : List (UInt16 × Nat) → UInt16 → Option Nat
   | [], _ => none
@@ -68,6 +69,8 @@ def selectLoop (pk : List (UInt16 × Nat)) (now : Nat) :
 
 inductive BufOp where
   | push (seq : UInt16) (tag : Nat)
+  | sent (ssrc : UInt32) (seq : UInt16) (tag : Nat)   -- `on_packet_sent` of a packet with this SSRC
+  | setRtx (ssrc : UInt32)                            -- `set_rtx(Some{rtx_ssrc}) / set_rtx(None)` (0)
   | query (now : Nat) (seqs : List UInt16)
   deriving Repr
 
@@ -78,6 +81,11 @@ inductive BufOut where
 
 def NackBuf.step (b : NackBuf) : BufOp → NackBuf × BufOut
   | .push s t => let b' := b.push s t; (b', .len b'.packets.length)
+  | .sent ssrc s t =>
+    -- RTX retransmissions are never buffered
+    let b' := if b.rtxSsrc ≠ 0 ∧ ssrc = b.rtxSsrc then b else b.push s t
+    (b', .len b'.packets.length)
+  | .setRtx ssrc => ({ b with rtxSsrc := ssrc }, .len b.packets.length)
   | .query now seqs =>
     let r := selectLoop b.packets now seqs [] b.recent []
     ({ b with recent := r.2 }, .got r.1)
